@@ -256,7 +256,11 @@ func VerifC03TopNStep() {
 		vh.Assume(e.st.isActive(i)) // all bonded; activity is decided by M
 		// powers are case split over a tiny domain so that the threshold arithmetic folds to
 		// constants (exactness for large totals is VerifC03MinPower's job); N, M, opt-ins stay symbolic
-		e.st.power[i] = int64(vh.ConcretizeInt(int(e.st.power[i]), 1, vh.Bound("maxpower", 3)))
+		if mp := vh.Bound("maxpower", 3); mp > 0 {
+			e.st.power[i] = int64(vh.ConcretizeInt(int(e.st.power[i]), 1, mp))
+		} else {
+			vh.Assume(e.st.power[i] >= 1) // fully symbolic powers (bound log2power)
+		}
 	}
 	// exclude the known finding F1 (equal power, different tokens)
 	for i := 0; i < nv; i++ {
